@@ -25,7 +25,7 @@ EXPECTED_THEOREMS = {
     "C15": ["respond_swallows_client_errors", "incomplete_head_not_delivered", "no_terminator_no_head", "incomplete_small_body_not_delivered", "head_in_prefix_is_head", "body_read_never_blocks_when_closed", "read_up_to_never_blocks_when_closed", "drain_terminates_when_closed", "handle_never_blocks_when_closed", "prefix_delivery"],
     "C20": ["min_threads_value", "idle_period_value", "active_count_exact", "untimed_waiters_bounded", "idle_pool_at_baseline", "timed_out_worker_exits", "retire_no_task_lost", "drop_wakes_everybody", "accept_loop_stops", "handed_out_still_answerable", "no_accept_after_exit"],
     "C07": ["queue_exactly_once", "log_values_are_taken", "no_lost_wakeup", "quiescent_blocked_implies_empty", "look_enabled"],
-    "C17": ["token_conservation", "tokens_preserve_requests", "try_recv_never_blocks", "recv_empty_only_by_token", "recv_timeout_bounds"],
+    "C17": ["token_conservation", "tokens_preserve_requests", "try_recv_never_blocks", "recv_empty_only_by_token", "recv_timeout_bounds", "unblock_released_before_time_passes"],
     "C02": ["head_roundtrip", "method_table", "delivered_is_parsed", "head_roundtrip_any_segmentation"],
     "C03": ["limited_read_exact", "buffered_read_exact", "buffered_is_next_n", "upgrade_read_exact", "empty_read", "chunked_read_exact", "te_precedence", "declared_length", "no_framing_no_body"],
     "C09": ["next_head_offset_limited", "next_head_offset_buffered", "next_head_offset_empty", "next_head_offset_chunked", "chunked_read_then_drain"],
@@ -219,13 +219,18 @@ PROPS = {
         "assumptions": CTL_ASSUMPTIONS,
     },
     "C01": {
-        "batches": lambda tier: ctl_batches("seq", 1500, 40000)(tier) + ctl_batches("mt", 800, 30000, per=200)(tier) + conn_batches([("c10", 100)], [("c10", 600), ("mixed", 1500)])(tier),
-        "replay_bin": "controlled", "need": ["wire", "seq", "eof", "nohang", "results", "noabort"], "agr_need": ["wire", "seq", "eof"],
+        "batches": lambda tier: ctl_batches("seq", 1500, 40000)(tier) + ctl_batches("mt", 800, 30000, per=200)(tier) + ctl_batches("par", 600, 20000, per=200)(tier)
+                   + conn_batches([("c10", 100)], [("c10", 600), ("mixed", 1500)])(tier),
+        "replay_bin": "controlled", "need": ["wire", "seq", "eof", "nohang", "results", "noabort"], "agr_need": ["wire", "seq", "eof", "par"],
         "rule": "whole server of the generated copy under the deterministic scheduler: 2..6 pipelined requests, each answered on its own handler thread after a random virtual delay "
                 "(every permutation of answering order arises) or all held by one thread in arrival order; respond (small, >1 KiB, chunked), into_writer with multi-part "
                 "writes +- flush, drop; random schedules incl. baton-keeping bias; the client-side byte stream must decode, in request order, to exactly the expected messages; "
-                "plus the pristine malformed-pipeline batch (417/400 must not overtake earlier answers)",
-        "required_tags": ["fam:mt", "fin:writer", "fin:writer0", "fin:drop", "fin:respond", "n:5", "untouched:1", "big:1", "flushmid:1"],
+                "plus the pristine malformed-pipeline batch (417/400 must not overtake earlier answers); "
+                "par: pipelines mixing no / buffered / streamed (large, chunked, Expect) bodies, HTTP/2.0 requests and a malformed tail, every request on its own handler thread; "
+                "in the mt and par families the handlers' event sequence (received, as_reader called / returned, reads over, answer started / returned) is replayed on Lts.Par "
+                "(trace acceptance: parse steps and the connection thread's own answers are filled in, a call that returned out of turn is rejected) and the bytes the LTS submitted "
+                "must be the client's bytes",
+        "required_tags": ["fam:mt", "fam:par", "par:1", "fin:writer", "fin:writer0", "fin:drop", "fin:respond", "n:5", "untouched:1", "big:1", "flushmid:1", "body:chunked", "body:limited", "st:505"],
         "partial": [], "assumptions": CTL_ASSUMPTIONS + CONN_ASSUMPTIONS,
     },
     "C06": {
